@@ -208,7 +208,7 @@ pub struct ImmutableLeafs<'t, D> {
 impl<'t, D: Distance> ImmutableLeafs<'t, D> {
     /// Creates the structure by fetching all the leaf pointers
     /// and keeping the transaction making the pointers valid.
-    /// Do not take more items than memory allows.
+    /// Do not take more items than memory allows, but always take at least `min_items` of them.
     /// Remove from the list of candidates all the items that were selected and return them.
     pub fn new(
         rtxn: &'t RoTxn,
@@ -216,6 +216,7 @@ impl<'t, D: Distance> ImmutableLeafs<'t, D> {
         index: u16,
         candidates: &mut RoaringBitmap,
         memory: usize,
+        min_items: usize,
     ) -> heed::Result<(Self, RoaringBitmap)> {
         let page_size = page_size::get();
         let nb_page_allowed = (memory as f64 / page_size as f64).floor() as usize;
@@ -246,7 +247,7 @@ impl<'t, D: Distance> ImmutableLeafs<'t, D> {
                 pages_used.insert(end);
             }
 
-            if pages_used.len() >= nb_page_allowed && leafs.len() >= 200 {
+            if pages_used.len() >= nb_page_allowed && leafs.len() >= min_items {
                 break;
             }
 
